@@ -19,9 +19,14 @@ def _sorted_arr(xs):
 def events(r, kind=None, base=0.0, max_n=24, span=None):
     """A 1-d non-decreasing event-time array on the 1/64 lattice."""
     kinds = ["empty", "single", "two", "regular", "jitter", "dups", "cluster",
-             "random", "random", "regular", "jitter", "alldup"]
+             "random", "random", "regular", "jitter", "alldup", "int"]
     kind = kind or r.choice(kinds)
     b = int(base * Q)
+    if kind == "int":
+        # whole seconds in an integer-typed array (admitted by every validator)
+        lo = int(np.ceil(base))
+        xs = sorted(r.sample(range(lo, lo + 60), r.randrange(2, min(max_n, 20) + 1)))
+        return np.array(xs, dtype=np.int64)
     if kind == "empty":
         return np.array([], dtype=float)
     if kind == "single":
@@ -253,7 +258,8 @@ def related_notes(r, iv, hz, vel):
         db = r.choice([0, 0, 1, 2, 3, 4, 5, 6, 8, 16, -1, -2, -3, -4, -5, -8, -16, 32]) / Q
         na = max(0.0, a + da)
         nb = max(na + 1 / Q, b + db)
-        dp = r.choice([0, 0, 0, 0.25, -0.25, 0.5, -0.5, 1, -1, 12, -12, 0.375])
+        dp = r.choice([0, 0, 0, 0.25, -0.25, 0.5, -0.5, 1, -1, 12, -12, 0.375,
+                       0.4995, -0.4995, 0.5005, 0.2495, 0.9995])
         out_iv.append([na, nb])
         out_hz.append(p * 2.0 ** (dp / 12.0))
         out_vel.append(float(min(127, max(0, v + r.choice([0, 0, 5, -5, 20, -40])))))
